@@ -19,7 +19,7 @@ RULE = ('cases = sequence of add_scu/add_scp calls (1..4 calls, SOP-class lists 
         '0..4 and, if accepted, which proposed syntax) - every pattern for <= 3 contexts in '
         'thorough, seeded otherwise; non-trivial = >= 2 contexts or a partial acceptance; '
         'distinct = distinct (configuration, reply pattern)'
-        '; a second association after reconfiguration answered the other way round, with every class looked up again; unproposable configurations requested twice; series family: 3-8 short-lived entities one after the other with garbage collection in between')
+        '; a second association after reconfiguration answered the other way round, with every class looked up again; unproposable configurations requested twice; series family: 3-8 short-lived entities one after the other with garbage collection in between; replies with an empty User Information item or with further sub-items behind the maximum length')
 ASSUMPTIONS = ['a service is expected from get_scu only for classes configured with add_scu',
                'a configuration that cannot be proposed within ids 1..255 must fail with a '
                'library error before anything is written to the connection']
@@ -46,6 +46,7 @@ def cases(tier, seed):
             for pat in pats:
                 yield dict(calls=cfg, ts=tsn, maxlen=rnd.choice([0, 7, 16384, 65536]),
                            pattern=list(pat), seed=seed,
+                           ac_ui=rnd.choice([None, None, 'bare', 'rich']),
                            reply_order=rnd.choice([None, None, 'reversed', 'accepted-only',
                                                    'shuffled']))
     # a requester object whose first request is rejected and which is asked again: the second
@@ -88,6 +89,7 @@ def cases(tier, seed):
                 nxt += k
         yield dict(calls=calls, ts=rnd.randint(1, 3), maxlen=rnd.choice([0, 7, 128, 16384, 2 ** 32 - 1]),
                    pattern=None, seed=seed * 100003 + i, calls2=calls2,
+                   ac_ui=rnd.choice([None, None, None, 'bare', 'rich']),
                    reply_order=rnd.choice([None, None, None, 'reversed', 'accepted-only',
                                            'shuffled']))
 
@@ -330,8 +332,15 @@ def run_case(case):
                 rnd.shuffle(res2)
                 return res2
             return res
+        # what else the reply carries: the usual user information, none of the optional
+        # notifications at all (an empty User Information item), or further sub-items behind
+        # the maximum length (implementation version name, asynchronous operations window)
+        ui = {None: None, 'bare': rc.enc_user_info(max_length=None, impl_uid=None),
+              'rich': rc.enc_user_info(16384, '1.2.3.4', 'PEER_V1',
+                                       extra=(rc.enc_async(1, 1),))}[case.get('ac_ui')]
         world.serve_peer(ADDR, lambda sock: peers.ScriptedAcceptor(world.sim, sock, accept=accept,
-                                                                    max_length=16384))
+                                                                    max_length=16384,
+                                                                    ac_user_info=ui))
         out = {}
 
         def user():
